@@ -9,6 +9,8 @@ DECLS = r'''
 #[derive(Debug, Clone, PartialEq)] enum Kind { Unit, Other, Tup(i32, String), Rec { a: i32, b: String } }
 #[derive(Debug, Clone, PartialEq)] struct Mid { leaf: Leaf, kind: Kind, opt: Option<i32>, bx: Box<i32>, xs: Vec<i32>, pair: (i32, String), m: BTreeMap<String, i32>, names: Vec<String>, bb: Box<Box<i32>>, ol: Option<Leaf> }
 #[derive(Debug, Clone, PartialEq)] struct FL { x: f64, y: f64 }
+#[derive(Debug, Clone, PartialEq)] struct Inner { id: i32, name: String, n: i32 }
+#[derive(Debug, Clone, PartialEq)] struct Outer { id: i32, inner: Inner, name: String, n: i32, also: Option<Inner> }
 #[derive(Debug, Clone, PartialEq)] struct Top { mid: Mid, mids: Vec<Mid>, res: Result<i32, String>, t3: (i32, Kind, Leaf), mm: BTreeMap<String, Leaf>, count: i32 }
 '''
 
@@ -103,7 +105,9 @@ MID = Struct("Mid", [("leaf", LEAF), ("kind", KIND), ("opt", Opt(I32())), ("bx",
                      ("ol", Opt(LEAF))])
 TOP = Struct("Top", [("mid", MID), ("mids", Vec(MID)), ("res", Res(I32(), Str())), ("t3", Tup([I32(), KIND, LEAF])),
                      ("mm", MapT(LEAF)), ("count", I32())])
-ROOTS = [TOP, MID, LEAF, KIND, Vec(I32()), Opt(LEAF), Tup([I32(), Str()]), MapT(I32()), Vec(LEAF), I32(), Str(),
+INNER = Struct("Inner", [("id", I32()), ("name", Str()), ("n", I32())])
+OUTER = Struct("Outer", [("id", I32()), ("inner", INNER), ("name", Str()), ("n", I32()), ("also", Opt(INNER))])
+ROOTS = [OUTER, OUTER, TOP, MID, LEAF, KIND, Vec(I32()), Opt(LEAF), Tup([I32(), Str()]), MapT(I32()), Vec(LEAF), I32(), Str(),
          Opt(I32()), Vec(Str()), Res(I32(), Str()), Vec(Opt(I32())), Tup([KIND, Vec(I32())])]
 
 
@@ -450,11 +454,22 @@ class Gen:
         chosen = list(fields) if not rest else rng.sample(fields, rng.randint(0, len(fields)))
         if not wild:
             rng.shuffle(chosen)                       # any order
-        if rest and chosen and rng.random() < 0.15:
-            chosen.append(rng.choice(chosen))         # repeated field
+        wild_first = None
+        if chosen and rng.random() < 0.2:
+            dup = rng.choice(chosen)
+            if rng.random() < 0.5:
+                chosen.append(dup)                    # repeated field
+            else:
+                # the same field mentioned first as a bare `_`, then with a constraint (in either order of the two)
+                wild_first = dup[0]
+                chosen.insert(rng.randrange(len(chosen) + 1), (dup[0], None))
+            self.note("struct:repeated-field")
         self.note("wstruct" if wild else ("struct_rest" if rest else "struct_exact"))
         items = []
         for f, ft in chosen:
+            if ft is None:
+                items.append("%s: _" % f)
+                continue
             entry = self.field_entry(f, ft, pv[f], depth)
             if wild and entry.startswith("*"):
                 entry = "%s: _" % f                   # known finding: `*` inside a wildcard struct (not generated here)
